@@ -1,9 +1,12 @@
 import S3V.Props.C10Sig
+import S3V.Props.C10Policy
 /-!
 # Findings of C10 (policy-compliance clause): the code accepts forms whose policy forbids the upload
 
-Outside the pass/fail gate. `v4_check_post_signature` verifies the HMAC over the base64 policy text and never decodes
-it, so `C10_post_policy_enforced_full` is false. Witnesses (kernel-checked; the same shapes are replayed on the real
+Outside the pass/fail gate. FIXED by commit 64704af (finding classes `post-policy-*-accepted`): before it,
+`v4_check_post_signature` verified the HMAC over the base64 policy text and nothing ever decoded the policy. What stays
+true, and is recorded here, is that the SIGNATURE check alone accepts such forms (the POST-object gate of `ops::prepare`
+is what refuses them now, `witnesses_refused_by_gate`). Witnesses (kernel-checked; the same shapes are replayed on the real
 code by component `sigv4post`, classes `post-policy-*-accepted`, `known_findings.d/sigv4post.json`): a correctly
 signed form whose policy expired in 2000 and has no conditions, and one whose policy demands another key.
 The MAC is a constant function (the defect does not depend on it), so the empty signature is the right one.
@@ -39,34 +42,16 @@ theorem violated_condition_accepted :
     PostPolicy.formDefect now0 violatedPolicy (formWith violatedPolicy) b!"bkt" 5 = some .exactViolated := by
   decide +kernel
 
-/-- the negation of the full statement -/
-theorem C10_post_policy_enforced_full_false : ¬ C10_post_policy_enforced_full := by
-  intro h
-  obtain ⟨pb, hf, hcomp⟩ := h hmac0 look0 (formWith expiredPolicy) b!"bkt" 5 now0 b!"AK" b!"r" b!"s3"
-    expired_condition_free_policy_accepted.1
-  have hfield : findFieldValue (multipartFields (formWith expiredPolicy)) b!"policy" = some expiredPolicy := by
-    decide +kernel
-  rw [hfield] at hf
-  injection hf with hf
-  subst hf
-  have hd := expired_condition_free_policy_accepted.2
-  unfold PostPolicy.formCompliant at hcomp
-  rw [hd] at hcomp
-  cases hcomp
+/-- 2013-05-24T00:00:00Z in nanoseconds -/
+def now0Ns : Int := 1369353600000000000
 
-/-- …and through a violated condition as well -/
-theorem C10_post_policy_enforced_full_false' : ¬ C10_post_policy_enforced_full := by
-  intro h
-  obtain ⟨pb, hf, hcomp⟩ := h hmac0 look0 (formWith violatedPolicy) b!"bkt" 5 now0 b!"AK" b!"r" b!"s3"
-    violated_condition_accepted.1
-  have hfield : findFieldValue (multipartFields (formWith violatedPolicy)) b!"policy" = some violatedPolicy := by
-    decide +kernel
-  rw [hfield] at hf
-  injection hf with hf
-  subst hf
-  have hd := violated_condition_accepted.2
-  unfold PostPolicy.formCompliant at hcomp
-  rw [hd] at hcomp
-  cases hcomp
+/-- since 64704af the POST-object gate refuses both witnesses (regression facts; the witness forms stay in
+    `corpus/sigv4post.txt`, so a revert of the repair is reported as a fresh violation) -/
+theorem witnesses_refused_by_gate :
+    PostPolicyModel.gate now0Ns (findFieldValue (multipartFields (formWith expiredPolicy)) b!"policy") b!"bkt"
+      (multipartFields (formWith expiredPolicy)) 5 = .accessDenied ∧
+    PostPolicyModel.gate now0Ns (findFieldValue (multipartFields (formWith violatedPolicy)) b!"policy") b!"bkt"
+      (multipartFields (formWith violatedPolicy)) 5 = .accessDenied := by
+  decide +kernel
 
 end S3V.Findings.C10
